@@ -379,7 +379,7 @@ class Engine(object):
     # ------------------------------------------------------------------ expressions
 
     SAFE_METHODS = frozenset(
-        "startswith endswith isspace strip lstrip rstrip count find rfind lower upper isdigit isalpha isidentifier isupper islower".split()
+        "startswith endswith isspace strip lstrip rstrip count find rfind lower upper isdigit isalpha isidentifier isupper islower casefold".split()
     )
 
     def is_safe(self, e):
@@ -1156,6 +1156,36 @@ class Engine(object):
                         outs.append((s2, self.abstract_call(e, [sv], s2, "any(filter(...)) over a non-constant collection")))
             return outs
         if (
+            isinstance(f, ast.Name) and f.id == "next" and len(e.args) == 2 and not e.keywords
+            and isinstance(e.args[0], ast.Call) and isinstance(e.args[0].func, ast.Name) and e.args[0].func.id == "map" and len(e.args[0].args) == 2
+            and isinstance(e.args[0].args[0], ast.Lambda) and len(e.args[0].args[0].args.args) == 1
+            and isinstance(e.args[0].args[1], ast.Call) and isinstance(e.args[0].args[1].func, ast.Name) and e.args[0].args[1].func.id == "filter" and len(e.args[0].args[1].args) == 2
+            and isinstance(e.args[0].args[1].args[0], ast.Lambda) and len(e.args[0].args[1].args[0].args.args) == 1
+        ):
+            # idiom: next(map(F, filter(P, xs)), D) -- D, or F(x) for SOME element x of xs with P(x) (xs: strings, by `seq:` hint or unknown)
+            F_, flt = e.args[0].args[0], e.args[0].args[1]
+            P_ = flt.args[0]
+            outs = []
+            for s_d, dv in self.eval(e.args[1], st):
+                outs.append((s_d, dv))
+            kind = (self.contract.local_kinds or {}).get("__next_elem__", "str") if self.contract is not None else "str"
+            sx = st.fork()
+            x = self.fresh_value(kind, "elem", sx)
+            try:
+                sx.frames.append({P_.args.args[0].arg: x})
+                for s1, pv in self.eval(P_.body, sx):
+                    s1.assume(self.truthy(pv, s1))
+                    if not self.feasible(s1):
+                        continue
+                    s1.frames[-1] = {F_.args.args[0].arg: x}
+                    for s2, fvv in self.eval(F_.body, s1):
+                        s2.frames.pop()
+                        outs.append((s2, fvv))
+            except Unsupported:
+                raise
+            self.assumptions.add("stdlib idiom spec: next(map(F, filter(P, xs)), D) is D or F(x) for some x with P(x) (x ranges over all strings: xs itself is not consulted)")
+            return outs
+        if (
             isinstance(f, ast.Name) and f.id == "all" and len(e.args) == 1 and not e.keywords
             and isinstance(e.args[0], ast.Call) and isinstance(e.args[0].func, ast.Name) and e.args[0].func.id == "filter"
             and len(e.args[0].args) == 2 and ast.unparse(e.args[0].args[0]) in ("str.isalpha", "str.isdigit", "str.isalnum", "str.isidentifier", "str.isspace", "str.isdecimal", "str.isnumeric")
@@ -1429,6 +1459,8 @@ class Engine(object):
                 st.assume(z3.Implies(py_isspace(s), s != EMPTY))
                 self.assumptions.add("stdlib spec: ''.isspace() is False")
                 return [(st, VBool(py_isspace(s)))]
+            if m in ("casefold",) and not args:
+                return [(st, VStr(z3.Function("py_casefold", S, S)(s)))]
             if m in ("isdigit", "isalpha", "isidentifier", "isupper", "islower") and not args:
                 return [(st, VBool(z3.Function("py_%s" % m, S, B)(s)))]
             if m == "count" and len(args) == 1 and isinstance(args[0], VStr):
